@@ -994,5 +994,214 @@ theorem parseFuel_print (e : Expr) (hwf : wf e = true) (f : Nat) (hf : need e + 
   rw [List.append_nil] at h
   simp [parseFuel, h, parseLoop]
 
+/-! the default fuel of `parse` (6·tokens + 16) always suffices -/
+
+theorem sepBy_length_ge (sep : Tok) (l : List (List Tok)) (h : ∀ x ∈ l, 1 ≤ x.length) :
+    l.length ≤ (sepBy sep l).length := by
+  induction l with
+  | nil => simp [sepBy]
+  | cons x xs ih =>
+    cases xs with
+    | nil => have := h x (by simp); simp [sepBy_one]; omega
+    | cons y ys =>
+      have ih' := ih (fun z hz => h z (by simp [hz]))
+      rw [sepBy_cons_ne _ _ _ (by simp)]
+      simp only [List.length_append, List.length_cons] at ih' ⊢
+      omega
+
+theorem selHead_len (s : Sel) : (shownMatchers .fixed s).length + 4 ≤ 6 * (printSelHead .fixed s).length := by
+  cases hsh : shownMatchers .fixed s with
+  | nil =>
+    by_cases hn : s.name = "" <;> simp [printSelHead, hsh, hn, nameToks]
+  | cons m ms =>
+    have := sepBy_length_ge .comma ((m :: ms).map printMatcher) (by intro x hx; simp at hx; rcases hx with rfl | ⟨a, _, rfl⟩ <;> simp [printMatcher])
+    simp only [printSelHead, hsh, List.length_append, List.length_cons, List.length_map] at this ⊢
+    omega
+
+mutual
+theorem need_le (e : Expr) : need e + kk e ≤ 6 * (printExpr .fixed e).length + 3 := by
+  match e with
+  | .num n => simp only [need, kk, printExpr, printNum]; split <;> simp <;> omega
+  | .str v => simp [need, kk, printExpr]
+  | .vec s =>
+    have := selHead_len s
+    simp only [need, kk, printExpr, printSel, List.length_append]; omega
+  | .mat s r =>
+    have := selHead_len s
+    simp only [need, kk, printExpr, printMat, List.length_append, List.length_cons]; omega
+  | .sub x r st a o =>
+    have := need_le x
+    have hk : 1 ≤ kk x := by cases x <;> simp [kk]
+    simp only [need, kk, printExpr, printSubSuffix, List.length_append, List.length_cons]; omega
+  | .par x =>
+    have := need_le x
+    simp only [need, kk, printExpr, List.length_append, List.length_cons, List.length_nil]; omega
+  | .un n x =>
+    have := need_le x
+    simp only [need, kk, printExpr, List.length_append, List.length_cons]; omega
+  | .bin o m l r =>
+    have := need_le l
+    have := need_le r
+    simp only [need, kk, printExpr, List.length_append, List.length_cons]; omega
+  | .agg op wo g a =>
+    have := needArgs_le a
+    simp only [need, kk, printExpr, List.length_append, List.length_cons, List.length_nil]; omega
+  | .call f a =>
+    have := needArgs_le a
+    simp only [need, kk, printExpr, List.length_append, List.length_cons, List.length_nil]; omega
+theorem needArgs_le (a : Args) : needArgs a ≤ 6 * (printArgs .fixed a).length + 6 := by
+  match a with
+  | .nil => simp [needArgs]
+  | .cons e .nil =>
+    have := need_le e
+    simp only [needArgs, printArgs]; omega
+  | .cons e (.cons e' r') =>
+    have := need_le e
+    have := needArgs_le (.cons e' r')
+    rw [printArgs_cons2]
+    simp only [needArgs, List.length_append, List.length_cons] at this ⊢; omega
+end
+
+theorem parse_print (e : Expr) (hwf : wf e = true) : parse (printExpr .fixed e) = some (norm e) :=
+  parseFuel_print e hwf _ (by have := need_le e; simp only [fuelFor]; omega)
+
+
+/-- Full statement of the property at model level would be
+      ∀ ts e, parse ts = some e → parse (printExpr .fixed e) = some (norm e)
+    i.e. it needs `parse ts = some e → wf e = true` (every tree the parser builds is well-formed). That inclusion is not
+    proved; it is checked on every case of the correspondence run (driver line `wf 1`). It is false for trees holding a
+    0-second range / list offset (known finding `zero-duration`, see `zero_range_unprintable`). -/
+theorem accepted_roundtrip_partial (ts : List Tok) (e : Expr) (_h : parse ts = some e) (hwf : wf e = true) :
+    parse (printExpr .fixed e) = some (norm e) := parse_print e hwf
+
+/-! ## `norm e` is equivalent to `e`: only the list of label matchers of a named selector is rearranged, as a set it is kept -/
+
+theorem normSel_fields (s : Sel) :
+    (normSel s).name = s.name ∧ (normSel s).atm = s.atm ∧ (normSel s).off = s.off ∧ (normSel s).offEx = s.offEx := by
+  by_cases h : s.name = "" <;> simp [normSel, h]
+
+/-- a selector built by the parser carries the matcher for its own name (assembleVectorSelector); then `normSel` keeps
+    the set of matchers -/
+theorem normSel_mem (s : Sel) (h : s.name ≠ "" → nameMatcher s.name ∈ s.ms) (m : Matcher) :
+    m ∈ (normSel s).ms ↔ m ∈ s.ms := by
+  by_cases hn : s.name = ""
+  · simp [normSel, hn]
+  · have hm := h hn
+    simp only [normSel, hn, if_false, List.mem_append, List.mem_filter, List.mem_singleton, bne_iff_ne, ne_eq]
+    constructor
+    · rintro (⟨h1, _⟩ | rfl)
+      · exact h1
+      · exact hm
+    · intro h1
+      by_cases he : m = nameMatcher s.name
+      · exact Or.inr he
+      · exact Or.inl ⟨h1, he⟩
+
+theorem normSel_idem (s : Sel) : normSel (normSel s) = normSel s := by
+  by_cases hn : s.name = ""
+  · simp [normSel, hn]
+  · simp [normSel, hn, List.filter_append, List.filter_filter]
+
+/-! ## the tables regenerated from /repo are the ones the proofs were written against -/
+
+theorem prec_levels :
+    BinOp.ldefault.prec = 1 ∧ BinOp.lor.prec = 2 ∧ BinOp.land.prec = 3 ∧ BinOp.lunless.prec = 3 ∧
+    BinOp.eqlc.prec = 4 ∧ BinOp.neq.prec = 4 ∧ BinOp.lss.prec = 4 ∧ BinOp.lte.prec = 4 ∧ BinOp.gtr.prec = 4 ∧ BinOp.gte.prec = 4 ∧
+    BinOp.add.prec = 5 ∧ BinOp.sub.prec = 5 ∧ BinOp.mul.prec = 6 ∧ BinOp.div.prec = 6 ∧ BinOp.mod.prec = 6 ∧ BinOp.atan2.prec = 6 ∧
+    BinOp.pow.prec = 7 ∧ BinOp.pow.rightAssoc = true ∧ BinOp.mul.rightAssoc = false ∧ unaryOperandPrec = 7 := by decide
+
+/-- every operator has a level in the table (a missing one would get level 0 and never be taken by the loop) -/
+theorem every_op_has_level : BinOp.all.all (fun o => decide (0 < o.prec)) = true := by decide
+
+/-- every function name and aggregation operator is lexed to the token the grammar expects, so every call / aggregation
+    the parser can build can be printed and parsed back -/
+theorem functions_are_identifiers : SH.Gen.C28.functions.all (fun f => classifyKind f == .ident) = true := by decide
+
+theorem aggregators_are_keywords :
+    SH.Gen.C28.aggregateOpToks.all (fun n => kwTok n == .word (.kw n) (kwText n) && classifyKind (kwText n) == .kw n) = true := by decide
+
+/-! ## non-vacuity: concrete well-formed trees, and the theorem instantiated on them -/
+
+def selFoo : Sel := ⟨"foo", [⟨"a", .eq, "62"⟩, ⟨"__what__", .re, "78"⟩, nameMatcher "foo"], .ts 1500, -300, [60, -120]⟩
+def selSum : Sel := ⟨"sum", [nameMatcher "sum", nameMatcher "sum"], .start, 0, []⟩
+def selAnon : Sel := ⟨"", [⟨"__name__", .eq, "-"⟩], .none, 0, []⟩
+
+/-- sum without (job, on) (rate(foo{…}[5m] @ 1.500 offset [1m, -2m] offset -5m))[10m:1s] @ end() offset 1m
+      + -sum @ start() ^ 2 ^ -3 * ({__name__=""} and bool on (l) group_left () -Inf) -/
+def ex1 : Expr :=
+  .bin .add ⟨false, 0, false, [], []⟩
+    (.sub (.agg "SUM" true ["job", "on"] (.cons (.call "rate" (.cons (.mat selFoo 300) .nil)) .nil)) 600 1 .stop 60)
+    (.bin .mul ⟨false, 0, false, [], []⟩
+      (.un true (.bin .pow ⟨false, 0, false, [], []⟩ (.vec selSum)
+        (.bin .pow ⟨false, 0, false, [], []⟩ (.num ⟨false, "2"⟩) (.num ⟨true, "3"⟩))))
+      (.par (.bin .land ⟨true, 1, true, ["l"], []⟩ (.vec selAnon) (.num ⟨true, "Inf"⟩))))
+
+example : wf ex1 = true := by decide
+example : parse (printExpr .fixed ex1) = some (norm ex1) := parse_print ex1 (by decide)
+example : norm ex1 ≠ ex1 := by decide          -- `sum{__name__="sum",__name__="sum"}` loses the duplicate
+
+/-- topk(3, a) by (x) prints with the modifier in front; quantile takes two arguments -/
+def ex2 : Expr := .agg "TOPK" false ["x"] (.cons (.num ⟨false, "3"⟩) (.cons (.vec ⟨"a", [nameMatcher "a"], .none, 0, []⟩) .nil))
+example : wf ex2 = true := by decide
+example : parse (printExpr .fixed ex2) = some ex2 := by decide
+
+/-- trees the parser cannot produce are not well-formed: (a + b) * c without the ParenExpr, -1 ^ 2 with a folded sign,
+    a subquery of a bare selector -/
+example : wf (.bin .mul ⟨false, 0, false, [], []⟩ (.bin .add ⟨false, 0, false, [], []⟩ (.num ⟨false, "1"⟩) (.num ⟨false, "2"⟩))
+    (.num ⟨false, "3"⟩)) = false := by decide
+example : wf (.bin .pow ⟨false, 0, false, [], []⟩ (.num ⟨true, "1"⟩) (.num ⟨false, "2"⟩)) = false := by decide
+example : wf (.sub (.vec ⟨"a", [nameMatcher "a"], .none, 0, []⟩) 300 0 .none 0) = false := by decide
+
+/-! ## the printer before fixes/C28-printer-roundtrip.diff violates the property (each tree is well-formed) -/
+
+def vFoo (off : Int) (ex : List Int) : Expr := .vec ⟨"foo", [nameMatcher "foo"], .none, off, ex⟩
+def noMod : BinMod := ⟨false, 0, false, [], []⟩
+
+/-- `foo offset 5m` was printed `foo offset 300`: a NUMBER where the grammar wants a DURATION -/
+theorem old_printer_offset : wf (vFoo 300 []) = true ∧ parse (printExpr .old (vFoo 300 [])) = none := by decide
+
+/-- `(foo)[5m:30s]` was printed `(foo)[300:1]`: the lexer stops with "missing unit character in duration" -/
+theorem old_printer_subquery :
+    wf (.sub (.par (vFoo 0 [])) 300 1 .none 0) = true ∧ parse (printExpr .old (.sub (.par (vFoo 0 [])) 300 1 .none 0)) = none := by
+  decide
+
+/-- `foo offset [1m, 2m]` (StatsHouse extension) was printed `foo`: the list is lost -/
+theorem old_printer_offset_list :
+    wf (vFoo 0 [60, 120]) = true ∧ parse (printExpr .old (vFoo 0 [60, 120])) = some (vFoo 0 []) := by decide
+
+/-- `a + ignoring () group_left (x) b` was printed `a + b`: the cardinality and the included labels are lost -/
+theorem old_printer_group_left :
+    wf (.bin .add ⟨false, 1, false, [], ["x"]⟩ (vFoo 0 []) (vFoo 0 [])) = true ∧
+    parse (printExpr .old (.bin .add ⟨false, 1, false, [], ["x"]⟩ (vFoo 0 []) (vFoo 0 []))) =
+      some (.bin .add noMod (vFoo 0 []) (vFoo 0 [])) := by decide
+
+/-- `Inf ^ 2` was printed `+Inf ^ 2`, which is `+(Inf ^ 2)` -/
+theorem old_printer_inf :
+    wf (.bin .pow noMod (.num ⟨false, "Inf"⟩) (.num ⟨false, "2"⟩)) = true ∧
+    parse (printExpr .old (.bin .pow noMod (.num ⟨false, "Inf"⟩) (.num ⟨false, "2"⟩))) =
+      some (.un false (.bin .pow noMod (.num ⟨false, "Inf"⟩) (.num ⟨false, "2"⟩))) := by decide
+
+/-- `{}` was printed as the empty text -/
+theorem old_printer_empty_selector :
+    wf (.vec ⟨"", [], .none, 0, []⟩) = true ∧ parse (printExpr .old (.vec ⟨"", [], .none, 0, []⟩)) = none := by decide
+
+/-- ... and the same trees round-trip with the fixed printer -/
+theorem fixed_printer_witnesses :
+    parse (printExpr .fixed (vFoo 300 [])) = some (vFoo 300 []) ∧
+    parse (printExpr .fixed (.sub (.par (vFoo 0 [])) 300 1 .none 0)) = some (.sub (.par (vFoo 0 [])) 300 1 .none 0) ∧
+    parse (printExpr .fixed (vFoo 0 [60, 120])) = some (vFoo 0 [60, 120]) ∧
+    parse (printExpr .fixed (.bin .add ⟨false, 1, false, [], ["x"]⟩ (vFoo 0 []) (vFoo 0 []))) =
+      some (.bin .add ⟨false, 1, false, [], ["x"]⟩ (vFoo 0 []) (vFoo 0 [])) ∧
+    parse (printExpr .fixed (.bin .pow noMod (.num ⟨false, "Inf"⟩) (.num ⟨false, "2"⟩))) =
+      some (.bin .pow noMod (.num ⟨false, "Inf"⟩) (.num ⟨false, "2"⟩)) ∧
+    parse (printExpr .fixed (.vec ⟨"", [], .none, 0, []⟩)) = some (.vec ⟨"", [], .none, 0, []⟩) := by decide
+
+/-- Known finding `zero-duration`: `foo[0s400ms]` is accepted with Range = 0; "0s" is not a duration the parser takes, so
+    the hypothesis `range ≠ 0` inside `wf` cannot be dropped from `parse_print` -/
+theorem zero_range_unprintable :
+    wf (.mat ⟨"foo", [nameMatcher "foo"], .none, 0, []⟩ 0) = false ∧
+    parse (printExpr .fixed (.mat ⟨"foo", [nameMatcher "foo"], .none, 0, []⟩ 0)) = none := by decide
+
 end SH.Props.C28
+
 
